@@ -110,7 +110,7 @@ static const char* algName(int a) {
 
 // distance bound used for "returned point is the unique minimiser within the convergence tolerance"
 // (per-algorithm meaning of the tolerance; constants measured on the clean tree, see notes/C39.md)
-static double nearBound(int alg, const Run& r, int n, double fret, double fstar) {
+static double nearBound(int alg, const Run& r, int n, double fret, double fstar, bool hasLim) {
     // error of the numerical gradient (central differences are exact on quadratics up to rounding; forward
     // differences carry the truncation term h*A_ii/2 with h ~ 1.4e-7 |x|)
     double graderr = r.numGrad ? (r.method == 1 ? 1e-7 : 1e-4) * (1 + std::fabs(fret)) : 0;
@@ -122,8 +122,10 @@ static double nearBound(int alg, const Run& r, int n, double fret, double fstar)
         // objective gap (measured <= 8e-7 max(1,|f*|)); quadratic growth f(x)-f(x*) >= 1/2 ||x-x*||^2 (theorem kkt_optimal)
         // turns the gap bound into a distance bound
         case LBFGSB:        return std::sqrt(2 * (2.2e-7 + 50.0 * n * (r.tol + graderr) * (r.tol + graderr)) * std::max(1.0, std::fabs(fstar)));
-        case InteriorPoint: return 200 * (r.tol + r.ctol + graderr) + 1e-4;
-        case CMAES:         return 50 * std::sqrt(r.tol);            // stopTolFun on function differences
+        case InteriorPoint: return 20 * (r.tol + r.ctol + graderr) + 1e-5;      // measured <= 5% of this
+        // CMA-ES stops on the spread of recent function values (stopTolFun); without limits the measured distance is <= 1e-4
+        // for tol <= 1e-6; with limits active at the optimum its resampling scheme converges only roughly (measured <= 0.016)
+        case CMAES:         return hasLim ? 0.05 : 10 * std::sqrt(r.tol) + 1e-4;
     }
     return 1;
 }
@@ -210,7 +212,7 @@ static void predicates(const Prob& P, const Run& R, int alg, double fret, const 
     // (5) strictly convex problems: the returned point is the (designed, KKT-certified) unique minimiser within tolerance
     if (P.haveStar) {
         double e2 = 0; for (int i = 0; i < n; ++i) e2 += (xret[i] - P.xstar[i]) * (xret[i] - P.xstar[i]);
-        vh::P("unique_minimiser_within_tol", key + ".nearopt", std::sqrt(e2), nearBound(alg, R, n, fret, P.fAt(P.xstar.data())));
+        vh::P("unique_minimiser_within_tol", key + ".nearopt", std::sqrt(e2), nearBound(alg, R, n, fret, P.fAt(P.xstar.data()), P.hasLim));
     }
 }
 
